@@ -80,8 +80,8 @@ mut("R11", V, "\tif (!KSI_Integer_equals(aggrTime, extAggrTime)) {", "\tif (0) {
     "h_cmp.pf_ti_e1", "revert of fix fdc15f8: publications-file PUB-02 rule does not compare the aggregation time")
 mut("R12", V, "\tif (!KSI_Integer_equals(usrPubTime, extPubTime)) {", "\tif (0) {",
     "h_cmp.up_ti_e1", "user-publication PUB-02 rule does not compare the publication time")
-mut("R13", V, "\tif (!KSI_DataHash_equals(tempData->aggregationOutputHash, calInputHash)) {\n\t\tKSI_LOG_info(ctx, \"Calendar hash chain's input hash does not match with aggregation root hash.\");",
-    "\tif (0) {\n\t\tKSI_LOG_info(ctx, \"Calendar hash chain's input hash does not match with aggregation root hash.\");",
+mut("R13", V, "\tif (!KSI_DataHash_equals(tempData->aggregationOutputHash, calInputHash)) {\n\t\tKSI_LOG_info(ctx, \"Calendar hash chain's input hash does not match with aggregation root hash.\");\n\t\tKSI_LOG_logDataHash(ctx, KSI_LOG_DEBUG, \"Input hash from aggregation :\", tempData->aggregationOutputHash);\n\t\tKSI_LOG_logDataHash(ctx, KSI_LOG_DEBUG, \"Expected input hash         :\", calInputHash);\n\n\t\tVERIFICATION_RESULT_ERR(KSI_VER_RES_FAIL, KSI_VER_ERR_CAL_2, step);",
+    "\tif (0) {\n\t\tVERIFICATION_RESULT_ERR(KSI_VER_RES_FAIL, KSI_VER_ERR_CAL_2, step);",
     "h_cmp.cal_ti_nocal_e1", "CAL-02: input hash of the extender chain not compared")
 mut("R14", V, "\t\tKSI_LOG_info(ctx, \"Suitable PKI certificate not found in publications file.\");\n\n\t\tVERIFICATION_RESULT_ERR(KSI_VER_RES_NA, KSI_VER_ERR_GEN_2, step);",
     "\t\tKSI_LOG_info(ctx, \"Suitable PKI certificate not found in publications file.\");\n\n\t\tVERIFICATION_RESULT_OK(step);",
